@@ -54,6 +54,7 @@ func reg(p propCfg) { props[p.ID] = p }
 func init() {
 	q := func(s, c int) tierCfg { return tierCfg{s, c, 15 * time.Minute} }
 	th := func(s, c int) tierCfg { return tierCfg{s, c, 120 * time.Minute} }
+	reg(propCfg{ID: "C01", Level: "exploration", Quick: q(16, 500), Thorough: th(16, 8000)})
 	reg(propCfg{ID: "C02", Level: "exploration", Quick: q(16, 2000), Thorough: th(16, 30000)})
 	reg(propCfg{ID: "C03", Level: "exploration", Quick: q(16, 2500), Thorough: th(16, 60000)})
 	reg(propCfg{ID: "C04", Level: "exploration", Quick: q(16, 4000), Thorough: th(16, 100000)})
